@@ -14,6 +14,10 @@ PROPERTY = {'id': 'C09',
                'xdoctest.doctest_example:DocTest._print_captured',
                'xdoctest.doctest_example:DocTest.repr_failure',
                'xdoctest.doctest_example:DocTest.repr_failure._alter_traceback_linenos',
+               'xdoctest.doctest_example:DocTest.repr_failure#whole',
+               'xdoctest.doctest_example:DocTest.format_parts#list',
+               'xdoctest.checker:GotWantException.output_difference', 'xdoctest.checker:GotWantException.output_repr_difference',
+               'xdoctest.doctest_example:DocTest.cmdline',
                'xdoctest.doctest_example:DocTest.node',
                'xdoctest.doctest_example:DoctestConfig.getvalue',
                'xdoctest.directive:RuntimeState.__init__',
@@ -41,8 +45,10 @@ PROPERTY = {'id': 'C09',
                    'DoctestPart.directives / has_any_code, DocTest._parse/_pre_run/_import_module/_test_globals/repr_failure: assumed contracts (see '
                    'evidence.assumed_contracts)',
                    'no --global-exec code is configured (DoctestConfig.global_exec is None)',
-                   'repr_failure renders without raising when a failure is recorded (its own contract is not yet discharged: traceback text '
-                   'rewriting is string processing outside the current engine reach)'],
+                   'repr_failure as seen from run / _post_run: assumed contract; its own contract is the P clause above (region without the '
+                   'part-breakdown loop); assumed at the call of traceback.format_exception: a line that contains the pseudo file name '
+                   'is a location line, and an import failure has no frame in the pseudo file; format_parts does not raise on a doctest '
+                   'that is already parsed; output_difference / output_repr_difference (difflib text) do not raise'],
              'N/A': ['what pytest prints for an INTERNALERROR; difflib text']},
  'explanation': 'C09 as the raises= clause of DocTest.run plus per-iteration failure-recording clauses, over every exception class the oracles can '
                 'produce.'}
